@@ -220,6 +220,7 @@ func c27Parse(a []string) (*c27Prog, bool) {
 
 func c27Run(p *c27Prog) string {
 	s := NewSched()
+	s.Families = []string{"mux."}
 	// nothing in these programs blocks on a real primitive, so a segment that has not parked yet is only
 	// slow (loaded machine), not blocked: wait long before calling it blocked
 	s.BlockTimeout = 5 * time.Second
